@@ -58,3 +58,8 @@ def run(repo: Repo, rep: Report, tier: str) -> None:
     rep.floor("R03.4", 3)
     from ..core import regget
     regget.report(repo, rep, "R03.6", {"first-match-in-order", "raise-otherwise", "real-type"})
+    # rules of sibling properties that are necessary conditions of this one as well (same rule ids)
+    from ..core.report import Only
+    from . import c01 as _c01, c11 as _c11
+    _c01._r01_2(repo, Only(rep, {"R01.2"}))
+    _c11.run(repo, Only(rep, {"R11.5", "R11.7"}), tier)
